@@ -40,6 +40,7 @@ def shard(args):
         now = 1700000000 + h * 100000
         nextid = n0
         present = dict(prios)
+        cond_refs = set()
         while done < total:
             k = rng.choice([1, 3, 10, 50, 200, 500])
             # selections happen one per poll interval: advance the clock between them in small groups
@@ -61,6 +62,7 @@ def shard(args):
                     lines.append('RESOLVE\tm')
                     plan.append(('condprio', i, 5))
                     present[i] = 5
+                    cond_refs.add(i)
                 elif r < 0.08 and idle and len(present) < 12:
                     i = idle.pop()
                     p = rng.randrange(1, 10)
@@ -84,15 +86,15 @@ def shard(args):
                     plan.append(('new', nextid, p))
                     present[nextid] = p
                     nextid += 1
-                elif r < 0.88 and len(present) > 2:
-                    i = rng.choice(sorted(present))
+                elif r < 0.88 and len(set(present) - cond_refs) > 2:
+                    i = rng.choice(sorted(set(present) - cond_refs))     # (not a message a loaded condition refers to: resolving would fail)
                     lines.append('REMOVE\tm\tpc\tp%d\t0\t0' % i)
                     plan.append(('remove', i))
                     del present[i]
                 elif present:
                     # reload all present definitions into a new map (g_lastPollOrder is process global)
                     lines.append('NEW\tm\t0')
-                    plan.append(('reload',))
+                    plan.append(('reload', dict(present)))
                     for i, p in present.items():
                         lines.append('LOAD\tm\t' + esc('\n' + msg_line(i, p) + '\n'))
                         plan.append(None)
@@ -225,6 +227,9 @@ def shard(args):
                 cur.pop(pl[1], None)
                 last_sel.pop(pl[1], None)
             elif pl[0] == 'reload':
+                # the priorities are the ones written into the reloaded definitions (a SETPRIO that ebusd answered with another priority
+                # than requested, e.g. on a message a condition needs, does not survive the reload)
+                cur = {k: v for k, v in pl[1].items() if k in cur}
                 last_sel = {k: sel_index for k in cur}
                 newmsg = None
                 stale = True
